@@ -114,7 +114,8 @@ def st_case(draw):
             "x": x, "xkind": kind, "cdtype": cdt,
             "m": [draw(st.sampled_from([-3, -2, -1, 1, 2, 3]))] + [draw(st.integers(-3, 3)) for _ in range(d - 1)],
             "lin": {"a": [draw(st.integers(-8, 8)), draw(st.integers(-8, 8))],
-                    "b": [draw(st.integers(-8, 8)), draw(st.integers(-8, 8))], "seed": draw(A.seeds)}}
+                    "b": [draw(st.integers(-8, 8)), draw(st.integers(-8, 8))], "seed": draw(A.seeds)},
+            "layout": draw(st.sampled_from(A.LAYOUTS)), "clayout": draw(st.sampled_from(A.LAYOUTS))}
 
 
 def make_coord(cs, grid, cdtype):
@@ -251,8 +252,10 @@ def check_case(case):
     os_, w = case["oversamp"], case["width"]
     pc = case["pclass"]
     xdt, cdt = case["x"]["dtype"], case["cdtype"]
-    x = A.arr(case["x"])
-    coord = make_coord(case["coord"], grid, cdt)
+    x = A.relayout(A.arr(case["x"]), case.get("layout", "c"))
+    coord = A.relayout(make_coord(case["coord"], grid, cdt), case.get("clayout", "c"))
+    if case.get("layout", "c") != "c" or case.get("clayout", "c") != "c":
+        r.label("layout:x=%s,coord=%s" % (case.get("layout", "c"), case.get("clayout", "c")))
     pts_shape = list(case["coord"]["pts"])
     npts = A.prod(pts_shape)
     c64 = coord.astype(np.float64)          # exactly the values sigpy receives
